@@ -442,9 +442,11 @@ Definition s_window (l : list value) (from : Z) (count : option Z) : list value 
   firstn (Z.to_nat (hi - lo)) (skipn (Z.to_nat lo) l).
 Definition s_slice (args : list value) : sres :=
   match args with
-  | [VArr l; VInt s] => if s <? 0 then SOkArray else SVal (VArr (s_window l s None))
+  (* positions before the first element select nothing (fix a52babe): the window
+     [s, s + n) is clipped to the array, it is not shifted *)
+  | [VArr l; VInt s] => if s <? 0 then SVal (VArr l) else SVal (VArr (s_window l s None))
   | [VArr l; VInt s; VInt n] =>
-      if n >? 0 then (if s <? 0 then SOkArray else SVal (VArr (s_window l s (Some n)))) else SUnspec
+      if n >? 0 then (if s <? 0 then SVal (VArr (firstn (Z.to_nat (s + n)) l)) else SVal (VArr (s_window l s (Some n)))) else SUnspec
   | _ => SUnspec
   end.
 
